@@ -82,9 +82,22 @@ def _case(s, k, rng):
         ric = [pr for pr in ric if ru_raw.shape == (2,) and float(bigu + 100 * pr[0]) == ru_raw[0] and float(bigu + 100 * pr[1]) == ru_raw[1]]
         if not ric:
             ric = [[-996, -996]]
+        # a CONCAVE monotone map g(v) = M (v - min) - (v - min)^2 with M = 2^25 .. 2^27: windows of equal lattice width get widths that
+        # differ only in the 8th significant digit (the shortest is the right-most of them), so a ranking of the windows in reduced
+        # precision picks a longer one; all values are whole numbers below 2^31 and the transformed sample is judged by Good itself
+        lo_s = min(s)
+        rng_s = max(max(s) - lo_s, 1)
+        M = 2 ** 27 if rng_s <= 15 else (2 ** 26 if rng_s <= 31 else 2 ** 25)
+        gs = [M * (int(v) - lo_s) - (int(v) - lo_s) ** 2 for v in s]
+        rg_f = np.asarray(sample_hdi(np.array(gs, dtype=float), f), dtype=float).ravel()
+        rg_i = np.asarray(sample_hdi(np.array(gs, dtype=np.int64), f), dtype=float).ravel()
+        if rg_f.shape != (2,) or not np.array_equal(rg_f, rg_i):
+            rg = [-992, -992]
+        else:
+            rg = [int(v) if float(v).is_integer() and abs(v) < 2 ** 31 else -996 for v in rg_f]
     unchanged = bool(np.array_equal(arr, keep) and np.array_equal(flt, keepf) and np.array_equal(two, keep2)
                      and arr.shape == keep.shape and two.shape == keep2.shape)
-    return {"s": [int(v) for v in s], "k": int(k), "r": r, "same": same, "rp": rp, "ra": ra, "a": a, "b": b, "unchanged": unchanged, "rf": rf, "ric": ric}
+    return {"s": [int(v) for v in s], "k": int(k), "r": r, "same": same, "rp": rp, "ra": ra, "a": a, "b": b, "unchanged": unchanged, "rf": rf, "ric": ric, "gs": gs, "rg": rg}
 
 
 def large_part(ck):
@@ -166,7 +179,7 @@ def run(tier):
         e = events[i]
         ck.violation("Good / call-variant equality / permutation invariance / affine covariance / input unchanged",
                      {"sample": e["s"], "fraction": e["k"] / 16, "returned": e["r"], "variants[float,list,(uint8,uint16,int8),column,list-of-lists column,scaled by 2^-60,other-column,one-column]": e["same"],
-                      "permuted": e["rp"], "float_values_0.1x-0.37 (as lattice values)": e.get("rf"), "int64_values_2^60+100x (candidate lattice pairs)": e.get("ric"), "affine": {"a": e["a"], "b": e["b"], "returned": e["ra"]}, "input_unchanged": e["unchanged"]},
+                      "permuted": e["rp"], "float_values_0.1x-0.37 (as lattice values)": e.get("rf"), "int64_values_2^60+100x (candidate lattice pairs)": e.get("ric"), "concave_map_sample": e.get("gs"), "concave_map_returned": e.get("rg"), "affine": {"a": e["a"], "b": e["b"], "returned": e["ra"]}, "input_unchanged": e["unchanged"]},
                      site="sample_hdi")
     ck.sample({"part": "hdi", "sample": events[len(events) // 2]["s"], "fraction": events[len(events) // 2]["k"] / 16,
                "returned": events[len(events) // 2]["r"]})
